@@ -317,7 +317,10 @@ class Gen:
         if k == "if":
             return [st_expr({"k": "if", "c": self.e_bool(d - 1), "th": self.block(d - 1, "any"), "el": self.block(d - 1, "any") if r.random() < 0.5 else None})]
         if k == "exitwith":
-            return [{"k": "exitwith", "c": self.e_bool(d - 1), "body": self.block(d - 1, "bool" if self.btypes[-1] == "bool" else "num")}]
+            body = self.block(d - 1, "bool" if self.btypes[-1] == "bool" else "num")
+            if self.try_depth > 0 and r.random() < 0.3:
+                body.insert(r.randint(0, len(body) - 1), {"k": "throw", "x": self.e_num(0)})      # the enclosing try catches it
+            return [{"k": "exitwith", "c": self.e_bool(d - 1), "body": body}]
         if k == "while":
             # terminating loop over a dedicated counter
             self.scope_no += 1
